@@ -78,6 +78,7 @@ def _scripted_job(job):
     K, ltrim, every = job["K"], job["ltrim"], job["every"]
     conf = dict(clustering=True, n_particles=12, cluster_every=every, target="bimodal", sample=job["kernel"])
     rec = psrun.Recorder(2, label=job["label"])
+    rec.check_labels_from_model = False   # the scripted clusterer deliberately labels the Resampler's call differently
     np.random.seed(job["seed"])
     s, c = drivers.build_sampler(conf, rec)
     fake = Scripted(K, ltrim, 12, small=job.get("small", 0), slots=job.get("slots", "all"))
